@@ -414,6 +414,7 @@ class KorniaAugmenter(IterDataPipe):
                     translate=(self.translate_width, self.translate_height),
                     scale=self.scale,
                     p=self.affine_p,
+                    align_corners=True,
                     keepdim=True,
                     same_on_batch=True,
                 )
